@@ -59,7 +59,6 @@ structure WFEntry (e : Entry) : Prop where
 
 structure WF (d : LcDoc) : Prop where
   root : get? d.rootAttrs sVal = none
-  ids : ∀ i ∈ d.insts, i.id ≠ []
   entries : ∀ i ∈ d.insts, ∀ e ∈ i.entries, WFEntry e
 
 /-- `if current_instance not in self.changes: self.changes[current_instance] = {}` -/
@@ -100,10 +99,7 @@ theorem qname_ne_instanceID (e : Entry) (hw : WFEntry e) : qname e ≠ sInstance
     have : ':' ∈ sInstanceID := by rw [← h]; simp
     exact absurd this (by decide)
 
-theorem orZero_some (id : S) (h : id ≠ []) : orZero (some id) = id := by
-  cases id with
-  | nil => exact absurd rfl h
-  | cons c r => rfl
+theorem orZero_some (id : S) : orZero (some id) = id := rfl
 
 theorem get?_entryAttrs_val (e : Entry) : get? (entryAttrs e) sVal = some e.val := by
   unfold entryAttrs
@@ -121,7 +117,7 @@ theorem get?_entryAttrs_channel (e : Entry) : get? (entryAttrs e) sChannel = e.c
     simp [get?, this]
   | some c => simp [get?]
 
-theorem step_entry_start (st : HSt) (e : Entry) (id : S) (hid : id ≠ []) (hcur : st.current = some id)
+theorem step_entry_start (st : HSt) (e : Entry) (id : S) (hcur : st.current = some id)
     (hw : WFEntry e) :
     step st (.start (qname e) (entryAttrs e)) = .ok ⟨applyEntry id st.changes e, some id⟩ := by
   have hsome : ∃ inner, get? (ensure st.changes id) id = some inner := by
@@ -133,7 +129,7 @@ theorem step_entry_start (st : HSt) (e : Entry) (id : S) (hid : id ≠ []) (hcur
     · simp only [hc]
       exact ⟨[], get?_set_self _ _ _⟩
   obtain ⟨inner, hi⟩ := hsome
-  simp only [step, get?_entryAttrs_val, qname_ne_instanceID e hw, if_false, hcur, orZero_some id hid,
+  simp only [step, get?_entryAttrs_val, qname_ne_instanceID e hw, if_false, hcur, orZero_some id,
     get?_entryAttrs_channel, stripPrefix_qname e hw]
   unfold applyEntry isMaster
   unfold ensure at hi ⊢
@@ -154,7 +150,7 @@ theorem step_entry_stop (st : HSt) (e : Entry) (hw : WFEntry e) : step st (.stop
   simp only [step, qname_ne_instanceID e hw, if_false]
 
 
-theorem run_entries (id : S) (hid : id ≠ []) (rest : List Sax) (es : List Entry)
+theorem run_entries (id : S) (rest : List Sax) (es : List Entry)
     (hw : ∀ e ∈ es, WFEntry e) : ∀ ch,
     runFrom ⟨ch, some id⟩ (es.flatMap entryEvents ++ rest)
       = runFrom ⟨es.foldl (applyEntry id) ch, some id⟩ rest := by
@@ -164,13 +160,13 @@ theorem run_entries (id : S) (hid : id ≠ []) (rest : List Sax) (es : List Entr
     intro ch
     have hwe := hw e List.mem_cons_self
     simp only [List.flatMap_cons, entryEvents, List.cons_append, List.nil_append, runFrom,
-      step_entry_start ⟨ch, some id⟩ e id hid rfl hwe, step_entry_stop _ e hwe, List.foldl_cons]
+      step_entry_start ⟨ch, some id⟩ e id rfl hwe, step_entry_stop _ e hwe, List.foldl_cons]
     exact ih (fun x hx => hw x (List.mem_cons_of_mem _ hx)) _
 
 def applyInst (ch : PyDict S (PyDict S S)) (i : Inst) : PyDict S (PyDict S S) :=
   i.entries.foldl (applyEntry i.id) ch
 
-theorem run_inst (i : Inst) (hid : i.id ≠ []) (hw : ∀ e ∈ i.entries, WFEntry e) (rest : List Sax)
+theorem run_inst (i : Inst) (hw : ∀ e ∈ i.entries, WFEntry e) (rest : List Sax)
     (ch : PyDict S (PyDict S S)) :
     runFrom ⟨ch, none⟩ (instEvents i ++ rest) = runFrom ⟨applyInst ch i, none⟩ rest := by
   have h1 : step ⟨ch, none⟩ (.start sInstanceID [(sVal, i.id)]) = .ok ⟨ch, some i.id⟩ := by
@@ -178,10 +174,10 @@ theorem run_inst (i : Inst) (hid : i.id ≠ []) (hw : ∀ e ∈ i.entries, WFEnt
   have h2 : ∀ c, step ⟨c, some i.id⟩ (.stop sInstanceID) = .ok ⟨c, none⟩ := by
     intro c; simp [step]
   simp only [instEvents, List.cons_append, List.append_assoc, runFrom, h1]
-  rw [run_entries i.id hid _ i.entries hw ch]
+  rw [run_entries i.id _ i.entries hw ch]
   simp only [List.cons_append, List.nil_append, runFrom, h2, applyInst]
 
-theorem run_insts (rest : List Sax) (insts : List Inst) (hid : ∀ i ∈ insts, i.id ≠ [])
+theorem run_insts (rest : List Sax) (insts : List Inst)
     (hw : ∀ i ∈ insts, ∀ e ∈ i.entries, WFEntry e) : ∀ ch,
     runFrom ⟨ch, none⟩ (insts.flatMap instEvents ++ rest) = runFrom ⟨insts.foldl applyInst ch, none⟩ rest := by
   induction insts with
@@ -189,8 +185,8 @@ theorem run_insts (rest : List Sax) (insts : List Inst) (hid : ∀ i ∈ insts, 
   | cons i r ih =>
     intro ch
     simp only [List.flatMap_cons, List.append_assoc, List.foldl_cons]
-    rw [run_inst i (hid i List.mem_cons_self) (hw i List.mem_cons_self)]
-    exact ih (fun x hx => hid x (List.mem_cons_of_mem _ hx)) (fun x hx => hw x (List.mem_cons_of_mem _ hx)) _
+    rw [run_inst i (hw i List.mem_cons_self)]
+    exact ih (fun x hx => hw x (List.mem_cons_of_mem _ hx)) _
 
 /-- the handler on a rendered document: the mapping is the fold of the entries' effects -/
 theorem run_events (d : LcDoc) (hw : WF d) :
@@ -201,7 +197,7 @@ theorem run_events (d : LcDoc) (hw : WF d) :
     have : sEvent ≠ sInstanceID := by decide
     simp [step, this]
   simp only [run, events, runFrom, h1]
-  rw [run_insts _ d.insts hw.ids hw.entries]
+  rw [run_insts _ d.insts hw.entries]
   simp only [runFrom, h2]
 
 
@@ -297,15 +293,12 @@ theorem foldl_upd_none (es : List Entry) :
 theorem WF_of_wfB (d : LcDoc) (h : wfB d = true) : WF d := by
   simp only [wfB, Bool.and_eq_true, List.all_eq_true] at h
   obtain ⟨hr, hi⟩ := h
-  refine ⟨?_, ?_, ?_⟩
+  refine ⟨?_, ?_⟩
   · cases hg : get? d.rootAttrs sVal with
     | none => rfl
     | some x => simp [hg] at hr
-  · intro i hm hnil
-    have := (hi i hm).1
-    simp [hnil] at this
   · intro i hm e he
-    have := (hi i hm).2 e he
+    have := hi i hm e he
     simp only [wfEntryB, Bool.and_eq_true] at this
     obtain ⟨h1, h2⟩ := this
     refine ⟨by simpa using h1, ?_, ?_⟩
